@@ -64,6 +64,14 @@ CLAIMED = {
             "Trusted: Coq kernel; hand model coq/Model/StateM.v of State.eval_jaxpr_state / save / tag_state / namespace and of tracing (namespace -> push/pop, vmap -> batched saved values); "
             "harness/worker_state.py encodes site and dynamic instance into each saved value and compares the collected dictionaries structurally. No axioms.",
             "Coq refinement proof (interpreter = specification, induction over program syntax) + differential correspondence (vm_compute)", "7/C19"),
+    "C08": ("Theorems over a model of numpy/TFP parameter broadcasting: for any site sample_shape, any number of lanes and batched parameters of equal per-lane rank (unbatched ones of "
+            "smaller or equal rank), every output element [lane, s, j] of the vectorized site is drawn with exactly that lane's parameter elements, lanes laid out after the site's own "
+            "sample_shape (C08_sample_rule_lanewise); distinct lanes are distinct draws with batched parameters and with axis_size alone (never one draw broadcast); the statement without the "
+            "rank hypothesis is REFUTED (C08_full_refuted = known finding K3). Deterministic code and density sites are jax.vmap itself (oracle) and are only checked by the correspondence "
+            "against jax.vmap; the Vmap combinator is exercised by C01-C05 on AVmap programs (lane-wise compile).",
+            "Trusted: Coq kernel; hand model coq/Model/Vmap.v of VmapBatchHandler._handle_modular_vmap after batch axes are moved to the front, and of right-aligned size-1 broadcasting; TFP's "
+            "'one independent draw per output element' contract is an oracle; harness/worker_vmap.py decodes the parameter elements behind each output element of a parameter-echo sampler. No axioms.",
+            "Coq proof over a broadcasting model + parameter-echo correspondence (vm_compute) + comparison with jax.vmap", "7/C08"),
     "C09": ("Theorems: accept iff log u < min(0, log_alpha) (all kernels); the MH balance identity a*min(1,b/a) = b*min(1,a/b); the weight mh uses is the MH log ratio of the "
             "regenerate-from-prior proposal (via C04); mala's log_alpha is the MH log ratio of the Langevin proposal with drift eps^2/2*grad, scale eps, one noise per coordinate; "
             "n leapfrog steps are reversible under momentum flip for ANY gradient function over ANY commutative ring; rejected moves return the input; unselected coordinates untouched. "
